@@ -207,6 +207,7 @@ class World:
         return out
 
     def do_add(self, op):
+        self.last_line_obj = None
         if op.get("as") == "obj":
             o = core.call(gfapy.Line, op["line"], vlevel=self.gfa.vlevel,
                           version=op.get("lversion"))
@@ -260,11 +261,14 @@ class World:
             self.st.count("op.skipped")
             return core.Outcome(True, "skipped")
 
-        def f():
-            if op.get("dtype"):
-                l.set_datatype(op["tag"], op["dtype"])
-            l.set(op["tag"], to_pyvalue(op["value"]))
-        return core.call(f)
+        return core.call(l.set, op["tag"], to_pyvalue(op["value"]))
+
+    def do_set_datatype(self, op):
+        l = self._target(op)
+        if l is None:
+            self.st.count("op.skipped")
+            return core.Outcome(True, "skipped")
+        return core.call(l.set_datatype, op["tag"], op["dtype"])
 
     def do_del_tag(self, op):
         l = self._target(op)
@@ -275,3 +279,36 @@ class World:
 
     def do_validate(self, op):
         return core.call(self.gfa.validate)
+
+
+def _w_set_field(self, op):
+    l = self._target(op)
+    if l is None:
+        self.st.count("op.skipped")
+        return core.Outcome(True, "skipped")
+    return core.call(l.set, op["field"], op["value"])
+
+
+def _w_readd_connected(self, op):
+    l = self._target(op)
+    if l is None:
+        self.st.count("op.skipped")
+        return core.Outcome(True, "skipped")
+    return core.call(self.gfa.add_line, l)
+
+
+def _w_grp_conflict(self, op):
+    """second line of a multi-line group whose tag contradicts the first one's"""
+    l = self.gfa.line(op["id"])
+    if l is None or l.record_type != op["rt"]:
+        self.st.count("op.skipped")
+        return core.Outcome(True, "skipped")
+    o = core.call(l.set, "zc", 1)
+    if not o.ok:
+        return core.Outcome(True, "skipped")
+    return core.call(self.gfa.add_line, "%s\t%s\t%s\tzc:i:2" % (op["rt"], op["id"], op["item"]))
+
+
+World.do_set_field = _w_set_field
+World.do_readd_connected = _w_readd_connected
+World.do_grp_conflict = _w_grp_conflict
